@@ -2207,10 +2207,8 @@ def ctz : Nat → Nat → Nat
   | 0, _ => 0
   | w + 1, x => if x % 2 = 1 then 0 else ctz w (x / 2) + 1
 
-def revBitsAux : Nat → Nat → Nat → Nat
-  | 0, _, acc => acc
-  | w + 1, x, acc => revBitsAux w (x / 2) (2 * acc + x % 2)
-
 /-- `reverse_bits` of a `w`-bit word -/
-def revBits (w x : Nat) : Nat := revBitsAux w x 0
+def revBits : Nat → Nat → Nat
+  | 0, _ => 0
+  | w + 1, x => (x % 2) * 2 ^ w + revBits w (x / 2)
 '''
